@@ -47,6 +47,22 @@ CHECKS.update({
    note="continuous elevations across links; PathTpc::validate is not used as an oracle (it demands bit-exact float identities the property does not state)"),
 })
 
+TR_NOTE = "trusts the reference geometry walk, the independent re-aggregation of car parameters and the tolerance band of DESIGN 1.6; trace alphabet accel in {-0.3, 0, +0.2} m/s^2 x dt in {0.5, 1, 2.5} s; bounded depth"
+CHECKS.update({
+ "C07": dict(level="model_checking", ref="3 C07", technique="exhaustive operation-sequence exploration (E-SEQ FULL(d)+DEV(L,k)) of real SetSpeedTrainSim objects (one trace point + one real step per letter) over catalogue routes x trains; reference physics from the network's own points; traces re-run through walk()",
+   text="Every speed-trace continuation within the bound is stepped on real simulators over routes whose links are shorter and longer than one step of travel and than the train; on every accepted step weight, grade, curve, rolling, Davis-B, bearing and aero forces, front elevation and front/rear grades are compared with their definitions evaluated on a reference built from the network's own elevation and heading points.",
+   note=TR_NOTE),
+ "C11": dict(level="model_checking", ref="3 C11", technique="exhaustive operation-sequence exploration (E-SEQ) of real SetSpeedTrainSim objects; cross-level power/energy agreement on every accepted step",
+   text="On every accepted step of the set-speed exploration the consist request is bit-equal to the train demand, the consist delivery equals it within the code's 1e-8, and wheel / fuel / battery energies agree between train, consist and the sum over locomotives and with the getters.",
+   note=TR_NOTE),
+ "C12": dict(level="model_checking", ref="3 C12", technique="exhaustive operation-sequence exploration (E-SEQ) of real SetSpeedTrainSim objects incl. steps crossing several 5 m links; kinematic bookkeeping oracle on consecutive states",
+   text="On every accepted step: time advances by dt, front position by dt times mean speed, rear = front - length, total distance accumulates |move|, and (front segment, in-segment offset) identify the front position on the reference route.",
+   note=TR_NOTE),
+ "C14": dict(level="model_checking", ref="3 C14", technique="exhaustive operation-sequence exploration (E-SEQ) of real SetSpeedTrainSim objects with irregular time stamps; wheel-power reference; negative-speed probes at every position",
+   text="On every accepted step time and speed are bit-equal to the trace, wheel power equals the clipped sum of compound-mass inertia power and resistance power, energies advance by power times the trace's own dt; a negative trace speed at every position of a run must be rejected.",
+   note=TR_NOTE + "; the rate clip is accepted with either the current or the previous dt (watch item D12)"),
+})
+
 def main():
     checks = []
     for pid in sorted(CHECKS):
